@@ -147,12 +147,42 @@ func genC11(c *Ctx) {
 			c.Violate("ssid-differs", fmt.Sprintf("variant=%d", variant), "both sides are encrypted in one session but report different session ids", s.trace)
 		}
 		runs := 1 + c.R.Intn(3)
+		// directed sequences: what a run leaves behind must not influence the next one
+		//   0 random, 1 differ then equal, 2 equal then differ, 3 aborted then equal, 4 differ then the responder enters the
+		//   initiator's earlier secret (while the initiator enters a new one)
+		seq := i % 5
+		if seq != 0 {
+			runs = 2
+		}
+		var firstA []byte
 		for r := 0; r < runs; r++ {
 			a := 1 + c.R.Intn(2)
 			b := 3 - a
 			sa := secretShapes[c.R.Intn(len(secretShapes))]
 			sb := sa
 			equal := c.R.Chance(1, 2)
+			switch {
+			case seq == 1 && r == 0, seq == 2 && r == 1, seq == 4 && r == 0:
+				equal = false
+			case seq == 1 && r == 1, seq == 2 && r == 0, seq == 3 && r == 1:
+				equal = true
+			}
+			if seq == 3 && r == 0 {
+				s.StartSMP(a, "", []byte("to be aborted"))
+				s.Pump(1, 2, 2)
+				s.AbortSMP(a)
+				s.Pump(1, 2, 10)
+				c.Count("smp:aborted-run")
+				continue
+			}
+			if r == 0 {
+				firstA = sa
+			}
+			if seq == 4 && r == 1 {
+				// same initiator again with a fresh secret; the responder types the initiator's secret of the first run
+				sa = []byte("a brand new secret")
+				equal = false
+			}
 			if !equal && c.R.Chance(1, 3) {
 				// differ only in white space / control bytes at the ends
 				pairs := [][2][]byte{{[]byte("x"), []byte("x\n")}, {{}, []byte(" ")}, {[]byte("\tsecret"), []byte("secret")},
@@ -166,6 +196,13 @@ func genC11(c *Ctx) {
 					sb = []byte{1}
 				} else {
 					sb[len(sb)-1] ^= 1
+				}
+			}
+			if seq == 4 && r == 1 && firstA != nil {
+				sb = firstA
+				if string(sb) == string(sa) {
+					sb = append([]byte{}, sb...)
+					sb = append(sb, 1)
 				}
 			}
 			q := ""
